@@ -1131,7 +1131,40 @@ func c02LiteralEOF(p *Program, r *Report, typ, rule string) {
 				continue
 			}
 			n++
-			r.Check(len(cut) > 0 && !siteReachable(m, s, cut), rule, fnName(m)+"/literal-EOF#"+itoa(n), p.Pos(s.ret.Pos()), "literal io.EOF only after the inner reader reached its end",
+			okSite := len(cut) > 0 && !siteReachable(m, s, cut)
+			if !okSite {
+				// the drain sits in a helper whose error is merged with others before it is tested: with the
+				// drain assumed to have failed the EOF return is unreachable, and it cannot be reached around it
+				var drains []ssa.CallInstruction
+				for _, c := range callsIn(m) {
+					switch calleeName(c) {
+					case "io.Copy":
+						if isInnerReader(callArgs(c)[1]) {
+							drains = append(drains, c)
+						}
+					case "io.ReadAll":
+						if isInnerReader(callArgs(c)[0]) {
+							drains = append(drains, c)
+						}
+					}
+				}
+				var wcut []edge
+				for _, ce := range condEdgesOf(m) {
+					for w := range witness {
+						if ce.atoms["field:"+w] && !ce.isEqNeq && len(ce.atoms) <= 3 {
+							wcut = append(wcut, ce.holds)
+						}
+					}
+				}
+				tgt := s.ret.Block()
+				if s.pred != nil {
+					tgt = s.pred
+				}
+				if len(drains) > 0 {
+					okSite, _ = mustSucceedBefore(m, drains, wcut, []*ssa.BasicBlock{tgt})
+				}
+			}
+			r.Check(okSite, rule, fnName(m)+"/literal-EOF#"+itoa(n), p.Pos(s.ret.Pos()), "literal io.EOF only after the inner reader reached its end",
 				"the reader ends the stream on its own (returns io.EOF) on a path where the wrapped reader was not read to its end: the wrapped auth reader's verdict is never observed")
 		}
 	}
